@@ -13,6 +13,17 @@ CLAIMED = {
         note='Trusted: Coq kernel + vm_compute, translator (harness/translate.py, gen_kernels.py), simulated ranks instead of real MPI '
              '(partial: collective I/O not modelled), fake mpi4py for the socket grouping, uint16 bound R < 65536.',
         technique='Coq proof (lia/induction) over translator-generated model + in-Coq correspondence evaluation'),
+    'C15': dict(
+        text='Coq theorems over exact rationals (all budgets, multipliers >= 1, core requests, row sizes): positions/read x row bytes x multiplier x '
+             'workers <= granted memory, monotone in the budget, cores and recommended cores in [1, logical], zero budget => the cursor cannot '
+             'advance and the recommender rejects the empty batch. __set_memory/__set_cores/recommend_cpu_cores are regenerated from the source '
+             'by the ast translator on every run (with ZeroDivisionError guards) and validated against the real code in coqc; compute() is run '
+             'under a watchdog for budgets admitting >=1 row and none.',
+        design='5/C15',
+        note='Trusted: Coq kernel, translator, exact-rational idealisation of IEEE float rounding (configurations whose exact quotient lies within '
+             '2^-40 of an integer are excluded and counted), patched get_available_memory/cpu_count inside the harness process. Partial: '
+             'float rounding, MPI branch of __set_cores.',
+        technique='Coq proof (Q arithmetic: field/nra/lia) over translator-generated model + in-Coq correspondence evaluation'),
 }
 
 NOT_YET = {}
